@@ -136,6 +136,17 @@ func setup(sum *Summary) (*env, error) {
 		e.repo = "/repo"
 	}
 	e.dir = filepath.Join(e.verifDir, "work", fmt.Sprintf("vprof-%s-%d-%d", *profile, *seed, os.Getpid()))
+	// the profiler runs under an unprivileged uid: every directory above the run directory must be
+	// searchable by others, otherwise use a scratch directory under the system's temp dir
+	for d := filepath.Dir(e.dir); d != "/" && d != "."; d = filepath.Dir(d) {
+		if st, err := os.Stat(d); err == nil && st.Mode().Perm()&0o001 == 0 {
+			if tmp, terr := os.MkdirTemp("", "vprof-"); terr == nil {
+				os.Chmod(tmp, 0o755)
+				e.dir = tmp
+			}
+			break
+		}
+	}
 	os.RemoveAll(e.dir)
 	if err := os.MkdirAll(e.dir, 0o755); err != nil {
 		return nil, err
